@@ -42,6 +42,26 @@ func VH_C14_Push(p []int) {
 			vals[k] = Or().Push("nested") // with a policy installed the policy alone decides
 		}
 	}
+	if len(p) > 3 && p[3] == 1 {
+		// the values arrive through Transfer from another stack: each is
+		// offered to the destination on its own, policy included
+		verifAssume(cfg.cap == 0)
+		src := Basic()
+		*src.stack = append(*src.stack, vals...)
+		src.Transfer(s)
+		model := vhCopy(pre.model)
+		verifAssert(len(log.calls) == m, "transfer-consults-the-policy-for-each-value")
+		for k := 0; k < m && k < len(log.calls); k++ {
+			verifAssert(vhSameElem(log.calls[k], vals[k]), "transfer-consults-in-order")
+			if log.verdicts[k] {
+				model = append(model, vals[k])
+			}
+		}
+		vhInv(s, cfg, "inv")
+		vhAssertElems(s, model, "transfer-stores-exactly-the-approved")
+		verifReach("end")
+		return
+	}
 	s.Push(vals...)
 	// reference: consult once per value in order while room remains; append
 	// on approval; stop at the first rejection
@@ -192,10 +212,23 @@ func VH_C14_StackClosures(p []int) {
 		case 4: // marshal
 			if install {
 				called := 0
-				s.SetMarshaler(func(...any) error { called++; return sentinel })
+				var seen []any
+				s.SetMarshaler(func(in ...any) error { called++; seen = in; return sentinel })
 				err := s.Marshal("AND", "x")
 				verifAssert(err == sentinel && called == 1, "marshal-closure-result")
 				verifAssert(s.Len() == 2, "marshal-closure-only")
+				// the closure receives the input as offered: one enveloped
+				// slice stays one argument, an empty envelope is still input
+				err = s.Marshal([]any{"AND", "x"})
+				verifAssert(err == sentinel && called == 2, "marshal-closure-result-envelope")
+				if len(seen) == 1 {
+					_, isSlice := seen[0].([]any)
+					verifAssert(isSlice, "marshal-closure-sees-the-envelope")
+				} else {
+					verifAssert(false, "marshal-closure-sees-one-argument")
+				}
+				err = s.Marshal([]any{})
+				verifAssert(err == sentinel && called == 3, "marshal-closure-result-empty-envelope")
 			}
 			s.SetMarshaler()
 			l := s.Len()
